@@ -134,8 +134,9 @@ LexLeq(a, b) == IF a = <<>> THEN TRUE
 NumeralLeq(a, b) == Len(a) < Len(b) \/ (Len(a) = Len(b) /\ LexLeq(a, b))
 MaxInt64 == Chars("9223372036854775807")
 Exact53  == Chars("9007199254740992")         \* integers up to 2^53 travel through a float64 unharmed
-FitsInt(x) == Integral(x) /\ (x.m = <<>> \/ (x.e <= 19 /\ NumeralLeq(IntDigits(x), MaxInt64)))
-ExactInt(x) == Integral(x) /\ (x.m = <<>> \/ (x.e <= 16 /\ NumeralLeq(IntDigits(x), Exact53)))
+MinInt64Abs == Chars("9223372036854775808")
+FitsInt(x) == Integral(x) /\ (x.m = <<>> \/ (Len(x.m) + x.e <= 19 /\ NumeralLeq(IntDigits(x), IF x.neg THEN MinInt64Abs ELSE MaxInt64)))
+ExactInt(x) == Integral(x) /\ (x.m = <<>> \/ (Len(x.m) + x.e <= 16 /\ NumeralLeq(IntDigits(x), Exact53)))
 
 (* canonical text of a value: integers as plain numerals, the others as <m>e<exponent> *)
 NumText(x) == (IF x.neg THEN <<"-">> ELSE <<>>) \o
@@ -143,7 +144,9 @@ NumText(x) == (IF x.neg THEN <<"-">> ELSE <<>>) \o
 NumType(x) == IF FitsInt(x) THEN "int" ELSE "float"
 (* the decided domain of number VALUES: integers up to 2^53, other numbers with at most 15 significant digits   *)
 (* (a float64 holds them) and a decimal exponent a float64 can carry                                              *)
-NumDecided(x) == ~x.wild /\ (ExactInt(x) \/ (Len(x.m) <= 15 /\ x.e + Len(x.m) \in -290..300))
+NumDecided(x) == /\ ~x.wild /\ (x.m = <<>> \/ (Len(x.m) <= 16 /\ x.e + Len(x.m) \in -290..300))
+                 /\ (ExactInt(x) \/ Len(x.m) <= 15)
+                 /\ (FitsInt(x) => ExactInt(x))        \* integers between 2^53 and 2^63: not decided
 CanonNum(s) == NumText(NumOf(s))            \* s: any literal of the language (also what Go prints for a number)
 
 ---------------------------------------------------------------------------
@@ -422,4 +425,27 @@ ReprStr(v) ==
      ELSE Find(v, SEMI, 1) = 0
 PlainText(v) == FindIn(v, {SQ, DQ, BSL}, 1) = 0
 ReprDef(d) == Trim(d) = d /\ ReadHeader(d) = [ents |-> <<>>, def |-> d]
+(* An annotation in memory is [k, t, v, ms]: key, type, printed value (numbers: any literal with that value),
+   members in printing order (maps).  What it comes back as (type changes that keep the value): *)
+BackType(r) ==
+  IF r.t \in {"int", "float"} THEN NumType(NumOf(r.v))
+  ELSE IF r.t \in {"mapint", "mapstr"} /\ KeyClass(r.k) = "any" THEN "map"
+  ELSE r.t
+Back(r) == [k |-> r.k, t |-> BackType(r),
+            v |-> IF r.t \in {"int", "float"} THEN CanonNum(r.v) ELSE r.v,
+            m |-> {IF mb.t = "num" THEN Member(mb.k, "num", CanonNum(mb.v)) ELSE mb : mb \in {r.ms[i] : i \in 1..Len(r.ms)}}]
+
+(* the syntactic statement of representability of one annotation *)
+ReprMembers(r) == \A i \in 1..Len(r.ms) : PlainText(r.ms[i].k) /\ (r.ms[i].t = "str" => PlainText(r.ms[i].v))
+Repr(r) ==
+  /\ ReprKey(r.k)
+  /\ CASE r.t = "str"    -> ReprStr(r.v)
+       [] r.t = "int"    -> TRUE
+       [] r.t = "float"  -> TRUE
+       [] r.t = "bool"   -> TRUE
+       [] r.t = "mapint" -> ReprMembers(r) /\ KeyClass(r.k) # "str"
+       [] r.t = "mapstr" -> ReprMembers(r) /\ KeyClass(r.k) # "int"
+       [] r.t = "map"    -> ReprMembers(r)
+       [] OTHER          -> FALSE
+
 =============================================================================
